@@ -50,6 +50,11 @@ def run(ctx, rep):
     ini, fin = inits[0], fins[0]
     ax = call_arg_exprs(ini)
     t = term_of(f, ax[0], cm.view_info)
+    if ax[0].k == "cast" and term_of(f, ax[0].a, cm.view_info) == ("len", subkey):
+        # `subkey.len() as u8`: the same value as long as the dominating guard keeps it below 256
+        lo_, hi_ = bounds(("len", subkey), facts_at(f, ini.bb, edge_facts(f, cm.view_info, interproc=False)))
+        if hi_ is not None and hi_ <= 255:
+            t = ("len", subkey)
     rep.ob("PROV", "digest length = subkey.len()", t == ("len", subkey),
            "digest-length operand of the BLAKE2b init is %s" % (("the constant %r" % t) if isinstance(t, int) else repr(t)), loc=ini.loc())
     rep.ob("PROV", "key <- master key", mk in f.backward_slice(operand_locals(ini.args[1])) and
